@@ -140,6 +140,13 @@ CHECKS = {
              "load_datasets; the oracle is the role and type tables parsed from docs/data_structures.rst. Finite domain, 'Confirmed over all paths' required.",
         note="Stub: jsonschema validation skipped while tracing (run un-stubbed in the concrete warm-up). pysdmx objects are built outside tracing. run_sdmx() end-to-end is outside (parser).",
         ref="3 C27"),
+    "C32": dict(technique="bounded SMT (z3) reachability of every runtime-error site of the SQL regenerated from the real transpiler (error() calls of the macros, DuckDB kernel domain errors, BIGINT overflow) over symbolic tables; each witness is executed by the real run() and the escaping exception classified",
+        engine="sqlsmt", ref="3 C32", category="model_checking",
+        note="Partial. Trusted: the evaluator's error-event model (self-checked per template against real DuckDB, incl. extreme integers; events over-approximate because DuckDB evaluates projections lazily - every reachable site is confirmed on the real engine), z3. "
+             "The exception class is observed on one witness per (template, site); DOUBLE overflow, out-of-memory, scalar results, file outputs and the parser are outside. Un-encodable SQL is probed concretely (auxiliary).",
+        text="For every template of C01-C08 and C28 plus error-oriented templates (~820 scripts) with Integer inputs over the whole int64 range, z3 decides per runtime-error site whether a load-valid input reaches it "
+             "(unsat = the site cannot fire within the row bound); for a reachable site the witness is run through the real run() and must raise a VTLEngineException with a catalogued code. The output "
+             "representation macros (4 formats x 6 indicators, every year 1000-9999 and valid number) are decided at character level and replayed through both fetch_result and cast(.., string)."),
 }
 
 NOT_APPLICABLE = {
